@@ -80,11 +80,16 @@ pub struct Scenario {
     pub reorder: bool,
     /// epilogue part 2: re-bind the listener addresses and re-connect over the same 4-tuples
     pub reuse: bool,
+    /// skip the socket_counts checkpoints (hand-written scenarios that show what a leaked entry
+    /// does to later binds and connects); never generated
+    #[serde(default)]
+    pub no_count_check: bool,
 }
 
 pub struct C13;
 
 pub const KF_O8: &str = "synreceived-child-never-reaped";
+pub const KF_FW2: &str = "orphan-finwait2-after-lost-rst";
 
 type ConnFut = Pin<Box<dyn Future<Output = std::io::Result<TcpStream>>>>;
 
@@ -431,15 +436,28 @@ impl<'a> Sim<'a> {
     fn accepted(&mut self, l: usize, s: TcpStream, peer: SocketAddr) {
         let (la, pa) = self.d.on(0, || (s.local_addr().ok(), s.peer_addr().ok()));
         let r = self.round;
-        let cand = (0..self.cs.len()).find(|&c| {
-            let st = &self.cs[c];
-            st.started.is_some() && st.accepted_round.is_none() && self.sc.conns[c].to == Some(l) && (st.client_local == Some(peer) || (st.client_local.is_none() && st.wire_src == Some(peer)))
-        });
-        // an attempt whose client address the harness cannot know (same-host connect that never completed)
+        let known = |me: &Self| {
+            (0..me.cs.len()).find(|&c| {
+                let st = &me.cs[c];
+                st.started.is_some() && st.accepted_round.is_none() && me.sc.conns[c].to == Some(l) && st.target == la && (st.client_local == Some(peer) || (st.client_local.is_none() && st.wire_src == Some(peer)))
+            })
+        };
+        let mut cand = known(self);
+        if cand.is_none() {
+            // a connector on the server host itself whose future was not polled since the handshake
+            // finished: let it run now so that its address is known
+            for c in 0..self.cs.len() {
+                if self.sc.conns[c].from == 0 && self.cs[c].fut.is_some() {
+                    self.poll_connect(c);
+                }
+            }
+            cand = known(self);
+        }
+        // an attempt from the server host that was given up before the harness could learn its address
         let cand = cand.or_else(|| {
             (0..self.cs.len()).find(|&c| {
                 let st = &self.cs[c];
-                st.started.is_some() && st.accepted_round.is_none() && self.sc.conns[c].to == Some(l) && st.client_local.is_none() && st.wire_src.is_none() && self.sc.conns[c].from == 0
+                st.started.is_some() && st.accepted_round.is_none() && self.sc.conns[c].to == Some(l) && st.target == la && st.client_local.is_none() && st.wire_src.is_none() && self.sc.conns[c].from == 0 && (st.cancelled.is_some() || st.result.is_some())
             })
         });
         let Some(c) = cand else {
@@ -527,6 +545,14 @@ impl<'a> Sim<'a> {
             self.observe_wire(&p);
             let f = self.fate(idx);
             self.note(|| format!("wire #{idx} {}{}", desc(&p), f.map(|f| format!("  <= {f:?}")).unwrap_or_default()));
+            // known finding (orphaned FinWait2 is never reclaimed when the peer's RST is lost):
+                // guarded scenarios do not drop RSTs
+                let f = if self.sc.guarded && f == Some(FaultKind::Drop) && kind(&p) == PktKind::Rst {
+                    self.rep.probes.inc("guard_kept_rst");
+                    None
+                } else {
+                    f
+                };
             match f {
                 Some(FaultKind::Drop) => {
                     self.rep.faults.inc(&format!("drop_{}", kind(&p).name()));
@@ -569,6 +595,11 @@ impl<'a> Sim<'a> {
             let empty = self.wire_round();
             if drain_accepts {
                 self.drain_listeners();
+                for c in 0..self.cs.len() {
+                    if self.cs[c].server.is_some() {
+                        self.drop_end(c, false, "drop");
+                    }
+                }
             }
             if self.stopped() {
                 return false;
@@ -614,6 +645,9 @@ impl<'a> Sim<'a> {
     }
 
     fn check_counts(&mut self, label: &str) {
+        if self.sc.no_count_check {
+            return;
+        }
         for h in 0..self.d.hosts.len() {
             let (s, b, c) = self.d.counts(h);
             let listeners = if h == 0 { self.ls.iter().filter(|l| l.sock.is_some()).count() } else { 0 };
@@ -621,9 +655,16 @@ impl<'a> Sim<'a> {
             let want = (listeners + udp, listeners + udp, 0usize);
             self.log.ev(format!("{label}: h{h} socket table holds {s} sockets, {b} bindings, {c} connection entries (application owns {listeners} listeners, no streams)"));
             if (s, b, c) != want {
-                let class = if self.aborted_handshake { "LeakAbortedHandshake" } else { "Leak" };
-                let dump = if self.log.keep { format!(" netstat: {:?}", turmoil_net::netstat(self.d.addrs[h][0]).entries.len()) } else { String::new() };
-                self.fail(class, format!("{label}: every connection was closed on both ends and the wire stayed empty for {} rounds, yet h{h}'s socket table holds {s} sockets / {b} bindings / {c} connection-index entries; the application owns {} sockets, {} bindings, 0 connections{dump}", q_rounds(&self.sc.cfg), want.0, want.1));
+                // diagnosis only (never the verdict): which TCP states do the left-over entries have?
+                let dump = turmoil_net::verif::debug_dump(self.d.hosts[h]);
+                let mut states: Vec<String> = dump.split("state: ").skip(1).map(|x| x.chars().take_while(|c| c.is_alphanumeric()).collect::<String>()).collect();
+                states.sort();
+                states.dedup();
+                let flags = format!("{}{}", if dump.contains("reset: true") { " reset" } else { "" }, if dump.contains("timed_out: true") { " timed_out" } else { "" });
+                // "aborted handshake": only Closed entries that the application never owned
+                let class = if states == ["Closed"] && !dump.contains("fd_closed: true") { "LeakAbortedHandshake".to_string() } else { format!("Leak{}", states.join("")) };
+                let dump = format!(" (left-over TCP states: {states:?}{flags})");
+                self.fail(&class, format!("{label}: every connection was closed on both ends and the wire stayed empty for {} rounds, yet h{h}'s socket table holds {s} sockets / {b} bindings / {c} connection-index entries; the application owns {} sockets, {} bindings, 0 connections{dump}", q_rounds(&self.sc.cfg), want.0, want.1));
                 return;
             }
         }
@@ -751,7 +792,7 @@ fn spin_to(sim: &mut Sim<'_>, h: usize, want: u16) -> bool {
 }
 
 fn reuse_phase(sim: &mut Sim<'_>) {
-    let tag = if sim.aborted_handshake { "AbortedHandshake" } else { "" };
+    let tag = "";
     // (d) the listener addresses can be bound again
     for l in 0..sim.ls.len() {
         let addr = sim.ls[l].addr;
@@ -1110,7 +1151,7 @@ fn gen_scenario(rng: &mut Rng, tier: Tier) -> Scenario {
             }
         }
     }
-    Scenario { guarded, cfg, hosts, listeners, conns, timeline: tl, faults, reorder: rng.chance(1, 8), reuse: rng.chance(1, 3) }
+    Scenario { guarded, cfg, hosts, listeners, conns, timeline: tl, faults, reorder: rng.chance(1, 8), reuse: rng.chance(1, 3), no_count_check: false }
 }
 
 impl Property for C13 {
@@ -1267,25 +1308,28 @@ impl Property for C13 {
     }
 
     fn signature(sc: &Scenario) -> String {
+        let mut letters: Vec<&'static str> = sc
+            .timeline
+            .iter()
+            .map(|(_, a)| match a {
+                Act::Connect { .. } => "C",
+                Act::Cancel { .. } => "X",
+                Act::Accept { .. } => "A",
+                Act::Write { client, .. } => if *client { "w" } else { "W" },
+                Act::Read { client, .. } => if *client { "r" } else { "R" },
+                Act::Shutdown { client, .. } => if *client { "s" } else { "S" },
+                Act::Drop { client, .. } => if *client { "d" } else { "D" },
+                Act::DropListener { .. } => "L",
+            })
+            .collect();
+        letters.sort();
+        letters.dedup();
         format!(
-            "{}{} {} f[{}]{}{}",
+            "{}{} n{} f[{}]{}{}",
             if guard_trigger(sc) { "TRIG " } else { "" },
             if sc.guarded { "G" } else { "U" },
-            sc.timeline
-                .iter()
-                .map(|(_, a)| match a {
-                    Act::Connect { c } => format!("C{c}"),
-                    Act::Cancel { c } => format!("X{c}"),
-                    Act::Accept { .. } => "A".into(),
-                    Act::Write { client, .. } => if *client { "w" } else { "W" }.into(),
-                    Act::Read { client, .. } => if *client { "r" } else { "R" }.into(),
-                    Act::Shutdown { client, .. } => if *client { "s" } else { "S" }.into(),
-                    Act::Drop { client, .. } => if *client { "d" } else { "D" }.into(),
-                    Act::DropListener { .. } => "L".into(),
-                })
-                .collect::<Vec<_>>()
-                .join(""),
-            sc.faults.iter().map(|f| format!("{}:{:?}", f.idx, f.kind)).collect::<Vec<_>>().join(","),
+            letters.len().min(3),
+            sc.faults.iter().map(|f| format!("{:?}", f.kind)).collect::<Vec<_>>().join(","),
             if sc.reorder { " reorder" } else { "" },
             if sc.reuse { " reuse" } else { "" }
         )
@@ -1294,6 +1338,10 @@ impl Property for C13 {
     fn known_match(matcher: &str, sc: &Scenario, v: &Violation) -> bool {
         // O8: only the classes that say "an entry of an aborted handshake stayed behind", and only
         // when the minimised scenario still contains a connector that gives up on a live listener
-        matcher == KF_O8 && v.class.ends_with("AbortedHandshake") && guard_trigger(sc)
+        match matcher {
+            KF_O8 => v.class == "LeakAbortedHandshake",
+            KF_FW2 => v.class == "LeakFinWait2" && !sc.guarded && sc.faults.iter().any(|f| f.kind == FaultKind::Drop),
+            _ => false,
+        }
     }
 }
